@@ -326,6 +326,15 @@ fn test(ctx: &Ctx, case: &PlanCase, st: &mut Stats) -> Verdict {
                     risinglight::verif::set_disabled_rules(vec![]);
                     let _ = take_panics();
                 }
+                // a dangling reference that disappears when one of the rewrite rules listed as
+                // unsound (open findings of C01, shared with this property) is switched off is a
+                // consequence of that finding: the unsound rewrite (x - x => 0, eq-trans, ..) made
+                // a predicate look like it needed fewer columns than it does
+                let listed = ctx.ablate_rules();
+                if !ctx.strict && sig.starts_with("ref-not-in-input") && blamed.iter().any(|b| listed.contains(b) || b == "eq-trans") {
+                    st.class("ill-formed-plan-attributed-to-listed-unsound-rules");
+                    return Verdict::Discard("ill-formed plan caused by a listed unsound rewrite rule");
+                }
                 return fail(format!("wellformed:{sig}:{sh}"), format!("{msg}\n  sql: {}\n  plan: {}\n  rules whose disabling gives a well-formed plan: {:?}", case.sql, plan, blamed));
             }
             // (3) output schema equals the bound query's
